@@ -227,6 +227,12 @@ type NodeResponse struct {
 // a set of filers.
 func (s *Serf) shouldProcessQuery(filters [][]byte) bool {
 	for _, filter := range filters {
+		// A filter too short to carry its type byte cannot be decoded, so
+		// it excludes this node like any other undecodable filter.
+		if len(filter) == 0 {
+			s.logger.Printf("[WARN] serf: query has an empty filter")
+			return false
+		}
 		switch filterType(filter[0]) {
 		case filterNodeType:
 			// Decode the filter
